@@ -35,7 +35,16 @@ type table struct {
 	arity int // number of segments after the first
 }
 
-var tables = []table{{[]byte("A"), 1}, {[]byte("B"), 2}, {[]byte("AB"), 1}, {[]byte{0xff}, 2}}
+var tables = []table{{[]byte("A"), 1}, {[]byte("B"), 2}, {[]byte("AB"), 1}, {[]byte{0xff}, 2}, {[]byte("M"), 1}}
+
+// massKeys: 100 more keys of table M ([M][2-byte index]) for blocks that delete many distinct keys at once
+var massKeys = func() [][]byte {
+	var out [][]byte
+	for i := 0; i < 100; i++ {
+		out = append(out, lib.JoinLenPrefix([]byte("M"), []byte{byte(i >> 8), byte(i)}))
+	}
+	return out
+}()
 
 func segName(s []byte) string {
 	for i, a := range segAlphabet {
@@ -45,6 +54,9 @@ func segName(s []byte) string {
 	}
 	if len(s) == 1 && s[0] == 0xff {
 		return "F"
+	}
+	if len(s) == 2 && s[0] == 0 {
+		return fmt.Sprintf("#%d", s[1])
 	}
 	return string(s)
 }
@@ -546,12 +558,12 @@ func runCase(t *rapid.T, ec *ev.Case) bool {
 		m.hot = append(m.hot, keyUniverse[rapid.IntRange(0, len(keyUniverse)-1).Draw(t, "hotkey")])
 	}
 	steps := rapid.IntRange(40, 120).Draw(t, "steps")
-	var nCommit, nCompact, nRollback, nReopen, nNestFlush, nNestDiscard, nCopy, maxDepth, nRev, nIdxIter int
+	var nCommit, nCompact, nRollback, nReopen, nNestFlush, nNestDiscard, nCopy, maxDepth, nRev, nIdxIter, nMassDel int
 	ops := []string{
 		"set", "set", "set", "set", "set", "set", "set", "del", "del", "del", "get", "get", "iter", "iter", "iter",
 		"push", "push", "push", "pop", "pop", "commit", "commit", "commit", "commit", "reset", "copy", "copyop", "copyop", "copyend",
 		"hist", "hist", "hist", "hist", "hist", "hist", "rohold", "roheld", "compact", "compact", "rollback", "rollback", "reopen",
-		"churn", "churn", "churn",
+		"churn", "churn", "churn", "massdel", "massdel",
 		"idxset", "idxset", "idxdel", "idxget", "idxiter", "idxiter",
 	}
 	for step := 0; step < steps; step++ {
@@ -649,6 +661,57 @@ func runCase(t *rapid.T, ec *ev.Case) bool {
 				}
 				m.commit()
 				nCommit++
+			}
+		case "massdel":
+			// a block that deletes more than 32 distinct keys at once (present and absent ones), usually followed by a block
+			// that writes a few of them again: what was deleted in block N and re-created in N+1 must stay visible
+			m.unwind()
+			if rapid.IntRange(0, 9).Draw(t, "massfill") < 6 {
+				lo := rapid.IntRange(0, 60).Draw(t, "fillfrom")
+				hi := rapid.IntRange(lo+5, min(lo+60, len(massKeys))).Draw(t, "fillto")
+				ec.Desc("fill M#%d..#%d", lo, hi-1)
+				for _, k := range massKeys[lo:hi] {
+					v := []byte{byte(step), 7}
+					if err := m.top.Set(bytes.Clone(k), bytes.Clone(v)); err != nil {
+						t.Fatalf("Set: %v", err)
+					}
+					m.sv.Set(k, v)
+				}
+				m.commit()
+				nCommit++
+			}
+			n := rapid.IntRange(33, 80).Draw(t, "massn")
+			from := rapid.IntRange(0, len(massKeys)-n).Draw(t, "massfrom")
+			victims := append([][]byte{}, massKeys[from:from+n]...)
+			victims = append(victims, m.hot...)
+			ec.Desc("massdel M#%d..#%d+hot", from, from+n-1)
+			for _, k := range victims {
+				if err := m.top.Delete(bytes.Clone(k)); err != nil {
+					t.Fatalf("Delete: %v", err)
+				}
+				m.sv.Delete(k)
+			}
+			m.commit()
+			nCommit++
+			nMassDel++
+			if rapid.IntRange(0, 9).Draw(t, "rewrite") < 8 {
+				var again [][]byte
+				for i, cnt := 0, rapid.IntRange(1, 4).Draw(t, "rewriteN"); i < cnt; i++ {
+					k := victims[rapid.IntRange(0, len(victims)-1).Draw(t, "rewriteKey")]
+					v := m.drawVal()
+					ec.Desc("set %s=%s", keyName(k), valName(v))
+					if err := m.top.Set(bytes.Clone(k), bytes.Clone(v)); err != nil {
+						t.Fatalf("Set: %v", err)
+					}
+					m.sv.Set(k, v)
+					again = append(again, k)
+				}
+				m.commit()
+				nCommit++
+				for _, k := range again {
+					m.checkGet(fmt.Sprintf("step %d after re-creating a mass-deleted key", step), m.top, m.sv, k)
+				}
+				m.checkIter(fmt.Sprintf("step %d after re-creating mass-deleted keys", step), m.top, m.sv, lib.JoinLenPrefix([]byte("M")), rapid.Bool().Draw(t, "rev"))
 			}
 		case "reset":
 			if m.sv.Depth() != 0 {
@@ -927,6 +990,7 @@ func runCase(t *rapid.T, ec *ev.Case) bool {
 	ec.ClassIf(m.reasked >= 10, "re-asked>=10-historical-answers")
 	ec.ClassIf(m.revAcross, "reverse-iteration-across-tombstoned-multiversion-key")
 	ec.ClassIf(nCommit >= 4, "commits>=4")
+	ec.ClassIf(nMassDel > 0, "block-deleting>32-keys")
 	return m.revAcrossThen
 }
 
